@@ -11,7 +11,7 @@ package capnp
 //@   props C16
 //@   partial
 //@   requires wfStruct(dst) && dst.seg != nil && wfStruct(src)
-//@   loop 0 "range dstData"
+//@   loop 0 of 3 "range dstData"
 //@     invariant 0 <= rangeidx && rangeidx <= len(dstData) && sameArr(dstData, dst.seg.data)
 //@     invariant forall(0, rangeidx, func(j int) bool { return dstData[j] == 0 })
 //@     invariant copyCount == minInt(int(dst.size.DataSize), int(src.size.DataSize)) &&
@@ -23,5 +23,9 @@ package capnp
 //@   assert before "srcPtrSect, _ := src.off.addSize" tailzero: forall(0, len(dstData), func(j int) bool { return dstData[j] == 0 })
 //@   assert before "srcPtrSect, _ := src.off.addSize" tailis: sameSlice(dstData, dst.seg.data[int(dst.off)+copyCount:int(dst.off)+int(dst.size.DataSize)])
 //@   assert before "srcPtrSect, _ := src.off.addSize" copycount: copyCount == minInt(int(dst.size.DataSize), int(src.size.DataSize))
+//@   -- the same, stated over the parameters alone (independent of how the function names its
+//@   -- temporaries): beyond the copied prefix the destination's data section is zero
+//@   assert before "srcPtrSect, _ := src.off.addSize" zeroext: forall(minInt(int(dst.size.DataSize), int(src.size.DataSize)), int(dst.size.DataSize), func(j int) bool {
+//@       return dst.seg.data[int(dst.off)+j] == 0 })
 //@   -- (the three assertions above are the zero extension: dstData is exactly the destination's data
 //@   -- section beyond the copied prefix, and it is all zero)
